@@ -216,3 +216,11 @@ Example C07_compare_examples :
   gtrFI (of_bits 4890909195324358656) 1 = true /\ lssFI (of_bits 4890909195324358656) 0 = false /\
   eqIF 9007199254740993 (of_bits 4845873199050653696) = true.
 Proof. vm_compute. repeat split; reflexivity. Qed.
+
+(** float_integer_part/1: for every finite float exactly the integer part of its
+    value (truncation toward zero), finite.  (Proofs/FloatIntPart.v) *)
+From PV Require Import Proofs.FloatIntPart.
+Theorem C07_float_integer_part : forall x : f64, fis_finite x = true ->
+  B2R 53 1024 (intPartF x) = IZR (Ztrunc (B2R 53 1024 x)) /\ fis_finite (intPartF x) = true.
+Proof. exact intPartF_correct. Qed.
+Print Assumptions C07_float_integer_part.
